@@ -2,5 +2,6 @@
 package all
 
 import (
+	_ "package-operator.run/internal/packages/zzverif/checks/c12"
 	_ "package-operator.run/internal/packages/zzverif/checks/c20"
 )
